@@ -21,11 +21,11 @@ TECHNIQUE = ("Lean 4 machine-checked proof over a hand model of NodeSorter / Ele
              "regenerated from NodeSorter.cpp on every run by a translator that also asserts the mirrored code shape; "
              "correspondence runs of generated xsl:sort stylesheets through the real XalanTransformer against the compiled model, "
              "with an independent executable specification predicate evaluated on every order the implementation produced")
-LEVEL_TEXT = ("Proved for every node list and every key list (35 theorems, no sorry, axioms propext/Classical.choice/Quot.sound): the "
+LEVEL_TEXT = ("Proved for every node list and every key list (37 theorems, no sorry, axioms propext/Classical.choice/Quot.sound): the "
               "multi-key comparator is a strict weak order equal to the lexicographic specification (text by collation, numbers with "
               "NaN least, descending per key); the number/string caches are transparent over any history of comparator calls and "
               "empty at the exit of every sort on normal and exceptional paths, so over the whole life of a transformer's sorter "
-              "(including aborted and nested sorts) each completed sort returns a permutation that is sorted, stable and unique "
+              "(including aborted, nested and re-entrant sorts — a sort key whose evaluation runs another sort) each completed sort returns a permutation that is sorted, stable and unique "
               "with these properties; insertion sort through the caches, List.mergeSort and a libstdc++-shaped run/merge sort agree; "
               "each comparison is collated with its own key's language and case-order through any state of the ICU collator cache "
               "(code-unit order when ICU refuses the language name); position()/last() in the body are index+1/length of the sorted list for every history of context-list pushes and pops (the position cache is transparent). Tied to the working tree "
@@ -74,6 +74,8 @@ THEOREMS = [P + t for t in [
     "sortOnce_correct",
     "sorter_history_correct",
     "nested_sorts_correct",
+    "reentrant_sorts_correct",
+    "sharedSorter_reentrancy_counterexample",
     "noCacheGuards_counterexample",
     "position_cache_transparent",
     "body_position_after_inner",
@@ -194,6 +196,12 @@ def run_cases(harness, model, cases, work, tag):
             continue
         order = [p[0] for p in parsed]
         r["order"] = order
+        eg = G.expected_global(case)
+        if eg is not None:
+            gi = out.find("{G:")
+            got = out[gi + 3:out.rfind("}")] if gi >= 0 else None
+            if got != eg:
+                r["extra_bad"] = "the sort run inside the top-level variable gave %r, expected %r" % (got, eg)
         # extras: the parameter passed by xsl:with-param, and the inner sort run inside every iteration
         for p in parsed:
             ex = p[4]
@@ -290,6 +298,12 @@ def shrink(harness, model, case, work, status):
             c["rows"] = [row[:j] + row[j + 1:] for row in cur["rows"]]
             c.pop("matrix", None)
             c.pop("matrix_ok", None)
+            re_ = c.get("reenter")
+            if re_:
+                if re_["key"] == j:
+                    c.pop("reenter")
+                elif re_["key"] > j:
+                    c["reenter"] = dict(re_, key=re_["key"] - 1)
             ps = c.get("pre_sort")
             if ps:
                 if ps["key"] == j:
@@ -495,6 +509,7 @@ def run(ctx):
     disagreements = []
     reported = 0
     lang_hits = 0
+    reenter_hits = 0
     for i, res in enumerate(results):
         case = res["case"]
         st = res["status"]
@@ -514,7 +529,8 @@ def run(ctx):
             echo_ok = False
             ctx.extra.setdefault("echo_mismatches", []).append({"case": G.describe(case), "what": res["echo_bad"]})
         if res.get("extra_bad"):
-            ctx.fail("sort.nested-or-param: " + G.describe(case), res["extra_bad"],
+            ctx.fail(("sort.reentrant-sorter[%s]: " % case["reenter"]["kind"] if case.get("reenter") and not case.get("abort")
+                      else "sort.nested-or-param: ") + G.describe(case), res["extra_bad"],
                      {"case": case_to_json(case), "history": [], "request": G.build(case)[0]})
         if res.get("probe_bad"):
             probe_ok = False
@@ -534,6 +550,26 @@ def run(ctx):
                              "keys with different lang attributes are all collated with the language of the last xsl:sort that has one: " + res["detail"],
                              {"case": case_to_json(case), "history": [], "xml": xml, "xsl": xsl, "request": line})
                     continue
+        # re-entrant use of the shared NodeSorter (a sort key whose evaluation runs another sort): classify cheaply, shrink
+        # only the first, so that it never uses up the reporting budget of a different violation
+        if st in ("spec", "poslast", "error", "crash") and case.get("reenter") and not case.get("abort"):
+            plain = dict(case)
+            plain.pop("reenter")
+            pres, _, _ = run_cases(harness_for(i), model, [plain], work, "plain")
+            if pres[0]["status"] == "ok":
+                reenter_hits += 1
+                rep = case
+                if reenter_hits == 1:
+                    rep = shrink(harness_for(i), model, case, work, st)
+                    if not rep.get("reenter"):
+                        rep = case
+                line, xml, xsl = G.build(rep)
+                ctx.fail("sort.reentrant-sorter[%s]: %s" % (rep["reenter"]["kind"], G.describe(rep)),
+                         "a sort key (or xsl:sort AVT) whose evaluation runs another sort (first reference to a top-level variable "
+                         "whose body sorts): the inner sort re-enters the execution context's single NodeSorter; the same case "
+                         "without the variable reference is sorted correctly: " + res["detail"],
+                         {"case": case_to_json(rep), "history": [], "xml": xml, "xsl": xsl, "request": line})
+                continue
         if reported >= 4:
             agree = agree and st not in ("model",)
             continue
